@@ -176,20 +176,24 @@ struct LPModel
       for(int i = 0; i < m; i++)
       {
          bool fl = !isNInf(lhs[i]), fr = !isPInf(rhs[i]);
-         o << " r" << i << ": ";
-         if(fl && fr && lhs[i] != rhs[i]) o << qs(lhs[i]) << " <= ";
-         bool a2 = false;
-         for(int j = 0; j < n; j++) if(A[i][j] != 0)
-            {
-               o << (A[i][j] > 0 ? " + " : " - ") << qs(qabs(A[i][j])) << " x" << j;
-               a2 = true;
-            }
-         if(!a2) o << "0 x0";
-         if(fl && fr && lhs[i] == rhs[i]) o << " = " << qs(rhs[i]);
-         else if(fr) o << " <= " << qs(rhs[i]);
-         else if(fl) o << " >= " << qs(lhs[i]);
-         else o << " >= -inf";
-         o << "\n";
+         bool ranged = fl && fr && lhs[i] != rhs[i];
+         for(int part = 0; part < (ranged ? 2 : 1); part++)     // the LP format has no ranged rows: two rows
+         {
+            o << " r" << i << (ranged ? (part == 0 ? "a" : "b") : "") << ": ";
+            bool a2 = false;
+            for(int j = 0; j < n; j++) if(A[i][j] != 0)
+               {
+                  o << (A[i][j] > 0 ? " + " : " - ") << qs(qabs(A[i][j])) << " x" << j;
+                  a2 = true;
+               }
+            if(!a2) o << "0 x0";
+            if(ranged) o << (part == 0 ? " >= " + qs(lhs[i]) : " <= " + qs(rhs[i]));
+            else if(fl && fr) o << " = " << qs(rhs[i]);
+            else if(fr) o << " <= " << qs(rhs[i]);
+            else if(fl) o << " >= " << qs(lhs[i]);
+            else o << " >= -inf";
+            o << "\n";
+         }
       }
       o << "Bounds\n";
       for(int j = 0; j < n; j++)
